@@ -50,12 +50,14 @@ Mat(f) == f \o << >>
 
 \* -------------------------------------------------------------------- types
 \* RFC 6020 section 9: value spaces and lexical representations of the built-in types.
-Ty(b) == [b |-> b, fd |-> 0, en |-> << >>, base |-> "", pat |-> ""]
-TyDec(fd) == [b |-> "decimal64", fd |-> fd, en |-> << >>, base |-> "", pat |-> ""]
-TyEnum(en) == [b |-> "enumeration", fd |-> 0, en |-> en, base |-> "", pat |-> ""]
-TyIdref(base) == [b |-> "identityref", fd |-> 0, en |-> << >>, base |-> base, pat |-> ""]
+Ty(b) == [b |-> b, fd |-> 0, en |-> << >>, base |-> "", pat |-> "", mem |-> << >>]
+TyDec(fd) == [b |-> "decimal64", fd |-> fd, en |-> << >>, base |-> "", pat |-> "", mem |-> << >>]
+TyEnum(en) == [b |-> "enumeration", fd |-> 0, en |-> en, base |-> "", pat |-> "", mem |-> << >>]
+TyIdref(base) == [b |-> "identityref", fd |-> 0, en |-> << >>, base |-> base, pat |-> "", mem |-> << >>]
 \* string restricted by the pattern [0-9]+ (9.4.6: the whole value must match)
-TyDigits == [b |-> "string", fd |-> 0, en |-> << >>, base |-> "", pat |-> "digits"]
+TyDigits == [b |-> "string", fd |-> 0, en |-> << >>, base |-> "", pat |-> "digits", mem |-> << >>]
+\* 9.12: a value of a union is a value of one of its member types (members may be unions themselves)
+TyUnion(mems) == [b |-> "union", fd |-> 0, en |-> << >>, base |-> "", pat |-> "", mem |-> mems]
 NoTy == Ty("none")
 
 SignedInts == {"int8", "int16", "int32", "int64"}
@@ -113,7 +115,20 @@ NsOf(mod) == "urn:" \o mod
 IdVal(leafmod, id) == IF id.mod = leafmod THEN id.name ELSE id.mod \o ":" \o id.name
 IdQual(id) == id.mod \o ":" \o id.name
 
+\* the identities an identityref type, or an identityref member of a union (at any depth), can name
+RECURSIVE IdsOf(_)
+IdsOf(ty) == IF ty.b = "identityref" THEN DerivedFrom(ty.base)
+             ELSE IF ty.b = "union" THEN UNION {IdsOf(ty.mem[i]) : i \in 1..Len(ty.mem)} ELSE {}
+\* the type without its identityref members (an identityref itself: a union without members, which accepts nothing)
+RECURSIVE NoIds(_)
+NoIds(ty) == IF ty.b = "identityref" THEN TyUnion(<< >>)
+             ELSE IF ty.b = "union" THEN TyUnion(Mat([i \in 1..Len(ty.mem) |-> NoIds(ty.mem[i])]))
+             ELSE ty
+RECURSIVE IsNumericTy(_)
+IsNumericTy(ty) == ty.b \in NumericTypes \/ (ty.b = "union" /\ \E i \in 1..Len(ty.mem) : IsNumericTy(ty.mem[i]))
+
 \* "yes" / "no" / "unj" (not judged)
+RECURSIVE Accepts(_, _, _)
 Accepts(ty, mod, s) ==
   LET yn(b_) == IF b_ THEN "yes" ELSE "no" IN
   CASE ty.b \in IntTypes -> yn(AcceptsInt(ty.b, s) /\ (ty.b \in SignedInts \/ ~IsNeg(s) \/ Strip0(Unsigned(s)) = "0"))
@@ -123,6 +138,8 @@ Accepts(ty, mod, s) ==
     [] ty.b = "empty" -> yn(s = "")
     [] ty.b = "enumeration" -> yn(\E i \in 1..Len(ty.en) : ty.en[i] = s)
     [] ty.b = "identityref" -> yn(\E id \in DerivedFrom(ty.base) : IdVal(mod, id) = s)
+    [] ty.b = "union" -> LET rs == {Accepts(ty.mem[i], mod, s) : i \in 1..Len(ty.mem)} IN
+                         IF "yes" \in rs THEN "yes" ELSE IF "unj" \in rs THEN "unj" ELSE "no"
     [] OTHER -> "unj"
 
 \* canonical lexemes (9.2.2, 9.3.2): what an encoder writes for a value.  Other accepted lexemes
@@ -130,6 +147,7 @@ Accepts(ty, mod, s) ==
 \* decoder does with them is judged by Conforms / NotAltered only.
 RECURSIVE StripT0(_)
 StripT0(s) == IF Len(s) > 0 /\ Ch(s, Len(s)) = "0" THEN StripT0(SubSeq(s, 1, Len(s) - 1)) ELSE s
+RECURSIVE IsCanonLex(_, _)
 IsCanonLex(ty, s) ==
   LET body == Unsigned(s)
       p == IdxOf(body, ".")
@@ -139,20 +157,32 @@ IsCanonLex(ty, s) ==
   IN CASE ty.b \in IntTypes -> (~HasSign(s) \/ (IsNeg(s) /\ ~zero)) /\ Len(ip) > 0 /\ ip = Strip0(ip)
        [] ty.b = "decimal64" -> /\ (~HasSign(s) \/ (IsNeg(s) /\ ~zero)) /\ Len(ip) > 0 /\ ip = Strip0(ip)
                                 /\ p # 0 /\ Len(fp) > 0 /\ (fp = "0" \/ fp = StripT0(fp))
+       \* union: canonical for every member type that accepts the lexeme
+       [] ty.b = "union" -> \A i \in 1..Len(ty.mem) : Accepts(ty.mem[i], "", s) = "no" \/ IsCanonLex(ty.mem[i], s)
        [] OTHER -> TRUE
 
 \* ------------------------------------------------------------------- schema
 \* dflt: default value of a leaf ("" = none); uniq: the leaf named by a list's unique statement ("" = none)
-LeafD(n, mod, ty, dflt) == [k |-> "leaf", n |-> n, mod |-> mod, ty |-> ty, user |-> FALSE, pres |-> FALSE, key |-> "", kids |-> << >>, dflt |-> dflt, uniq |-> ""]
+LeafD(n, mod, ty, dflt) == [k |-> "leaf", n |-> n, mod |-> mod, ty |-> ty, user |-> FALSE, pres |-> FALSE, key |-> "", kids |-> << >>, dflt |-> dflt, uniq |-> "", cs |-> ""]
 Leaf(n, mod, ty) == LeafD(n, mod, ty, "")
-LeafList(n, mod, ty, user) == [k |-> "ll", n |-> n, mod |-> mod, ty |-> ty, user |-> user, pres |-> FALSE, key |-> "", kids |-> << >>, dflt |-> "", uniq |-> ""]
-Cont(n, mod, pres, kids) == [k |-> "cont", n |-> n, mod |-> mod, ty |-> NoTy, user |-> FALSE, pres |-> pres, key |-> "", kids |-> kids, dflt |-> "", uniq |-> ""]
-ListU(n, mod, key, user, uniq, kids) == [k |-> "list", n |-> n, mod |-> mod, ty |-> NoTy, user |-> user, pres |-> FALSE, key |-> key, kids |-> kids, dflt |-> "", uniq |-> uniq]
+LeafList(n, mod, ty, user) == [k |-> "ll", n |-> n, mod |-> mod, ty |-> ty, user |-> user, pres |-> FALSE, key |-> "", kids |-> << >>, dflt |-> "", uniq |-> "", cs |-> ""]
+Cont(n, mod, pres, kids) == [k |-> "cont", n |-> n, mod |-> mod, ty |-> NoTy, user |-> FALSE, pres |-> pres, key |-> "", kids |-> kids, dflt |-> "", uniq |-> "", cs |-> ""]
+ListU(n, mod, key, user, uniq, kids) == [k |-> "list", n |-> n, mod |-> mod, ty |-> NoTy, user |-> user, pres |-> FALSE, key |-> key, kids |-> kids, dflt |-> "", uniq |-> uniq, cs |-> ""]
 List(n, mod, key, user, kids) == ListU(n, mod, key, user, "", kids)
 \* the model set: top-level nodes of all modules; "no module" so that every top-level name is qualified
-Root(kids) == [k |-> "root", n |-> "", mod |-> "", ty |-> NoTy, user |-> FALSE, pres |-> TRUE, key |-> "", kids |-> kids, dflt |-> "", uniq |-> ""]
+Root(kids) == [k |-> "root", n |-> "", mod |-> "", ty |-> NoTy, user |-> FALSE, pres |-> TRUE, key |-> "", kids |-> kids, dflt |-> "", uniq |-> "", cs |-> ""]
+\* RFC 6020 7.9: a node written inside a case of a choice is, in the data tree, a child of the node that holds the choice;
+\* cs = "<choice>:<case>" for such a node ("" otherwise).  At most one case of a choice has nodes in a valid tree.
+InCase(sn, cs) == [sn EXCEPT !.cs = cs]
+ChoiceOf(cs) == SubSeq(cs, 1, IdxOf(cs, ":") - 1)
+CaseOf(cs) == SubSeq(cs, IdxOf(cs, ":") + 1, Len(cs))
+OtherCase(a, b) == a # "" /\ b # "" /\ ChoiceOf(a) = ChoiceOf(b) /\ a # b
 HasChild(sn, name) == \E i \in 1..Len(sn.kids) : sn.kids[i].n = name
 Child(sn, name) == sn.kids[CHOOSE i \in 1..Len(sn.kids) : sn.kids[i].n = name]
+
+\* the children (data nodes) of a node of psn belong to at most one case of every choice
+CasesOK(psn, kids) ==
+  \A i, j \in 1..Len(kids) : (HasChild(psn, kids[i].n) /\ HasChild(psn, kids[j].n)) => ~OtherCase(Child(psn, kids[i].n).cs, Child(psn, kids[j].n).cs)
 
 \* -------------------------------------------------------------------- trees
 N(n, vals, kids) == [n |-> n, vals |-> vals, kids |-> kids]
@@ -198,6 +228,7 @@ ConfNode(sn, t) ==
     [] sn.k \in {"cont", "root"} ->
          IF t.vals # << >> THEN "container-with-value"
          ELSE IF ~Distinct(KidNames(t)) THEN "duplicate-child"
+         ELSE IF ~CasesOK(sn, t.kids) THEN "choice-cases"
          ELSE ConfKids(sn, t.kids, 1)
     [] sn.k = "list" ->
          IF t.vals # << >> THEN "list-with-value"
@@ -205,13 +236,14 @@ ConfNode(sn, t) ==
          ELSE IF ~UniqueOK(sn, t.kids) THEN "unique"
          ELSE LET bad == {i \in 1..Len(t.kids) :
                             LET e == t.kids[i] IN
-                            \/ e.vals # << >> \/ ~Distinct(KidNames(e))
+                            \/ e.vals # << >> \/ ~Distinct(KidNames(e)) \/ ~CasesOK(sn, e.kids)
                             \/ ~\E j \in 1..Len(e.kids) : e.kids[j].n = sn.key /\ e.kids[j].vals = <<e.n>>
                             \/ ConfKids(sn, e.kids, 1) # ""}
               IN IF bad = {} THEN ""
                  ELSE LET e == t.kids[MinOf(bad)] IN
                       IF e.vals # << >> THEN "entry-with-value"
                       ELSE IF ~Distinct(KidNames(e)) THEN "duplicate-child"
+                      ELSE IF ~CasesOK(sn, e.kids) THEN "choice-cases"
                       ELSE IF ConfKids(sn, e.kids, 1) # "" THEN ConfKids(sn, e.kids, 1)
                       ELSE "entry-key"
     [] OTHER -> "schema-kind"
@@ -263,8 +295,11 @@ RECURSIVE CombAll(_, _)
 CombAll(outs, i) == IF i > Len(outs) THEN "tree" ELSE Comb(outs[i].cls, CombAll(outs, i + 1))
 
 \* ============================================================ JSON documents
-JStr(s) == [t |-> "str", s |-> s, ss |-> {s}]
-JStrAlt(s, ss) == [t |-> "str", s |-> s, ss |-> ss]      \* encoder may write any of ss
+\* any: the JSON type of the scalar is not prescribed (RFC 7951 6.10: a union value is encoded as a value of
+\* one of the member types; which one a writer picks for a lexeme is not judged)
+JStr(s) == [t |-> "str", s |-> s, ss |-> {s}, any |-> FALSE]
+JStrAlt(s, ss) == [t |-> "str", s |-> s, ss |-> ss, any |-> FALSE]      \* encoder may write any of ss
+JUni(s, ss) == [t |-> "str", s |-> s, ss |-> ss, any |-> TRUE]
 JNum(s) == [t |-> "num", s |-> s]
 JTrue == [t |-> "true"]
 JFalse == [t |-> "false"]
@@ -277,13 +312,15 @@ JScalar(v) == v.t \in {"str", "num", "true", "false", "null"}
 \* ---- RFC 7951 section 4 (names), 5 (nodes), 6 (values)
 JName(rfc, pmod, csn) == IF rfc /\ csn.mod # pmod THEN csn.mod \o ":" \o csn.n ELSE csn.n
 EncJVal(rfc, csn, v) ==
-  LET b == csn.ty.b IN
+  LET b == csn.ty.b
+      \* 6.8: an identity of the leaf's own module may be written with or without the module name
+      forms == IF \E id \in IdsOf(csn.ty) : id.mod = csn.mod /\ id.name = v THEN {v, csn.mod \o ":" \o v} ELSE {v}
+  IN
   CASE b \in IntTypes -> IF rfc /\ b \in Wide THEN JStr(v) ELSE JNum(v)            \* 6.1
     [] b = "boolean" -> IF v = "true" THEN JTrue ELSE JFalse                      \* 6.3
     [] b = "empty" -> IF rfc THEN JArr(<<JNull>>, TRUE) ELSE JNull                \* 6.9
-    [] b = "identityref" ->                                                       \* 6.8
-         IF \E id \in DerivedFrom(csn.ty.base) : id.mod = csn.mod /\ id.name = v
-         THEN JStrAlt(v, {v, csn.mod \o ":" \o v}) ELSE JStr(v)
+    [] b = "identityref" -> JStrAlt(v, forms)                                     \* 6.8
+    [] b = "union" -> JUni(v, forms)                                              \* 6.10
     [] OTHER -> JStr(v)                                                           \* 6.1 (decimal64), 6.2, 6.4
 RECURSIVE EncJNode(_, _, _), EncJKids(_, _, _, _)
 EncJNode(rfc, csn, t) ==
@@ -364,7 +401,8 @@ JMatch(p, r) ==
                       /\ IF p.ord THEN \A i \in 1..Len(p.a) : JMatch(p.a[i], r.a[i])
                          ELSE /\ \A i \in 1..Len(p.a) : \E j \in 1..Len(r.a) : JMatch(p.a[i], r.a[j])
                               /\ \A j \in 1..Len(r.a) : \E i \in 1..Len(p.a) : JMatch(p.a[i], r.a[j])
-    [] p.t = "str" -> r.t = "str" /\ r.s \in p.ss
+    [] p.t = "str" -> IF p.any THEN r.t \in {"str", "num", "true", "false"} /\ (IF r.t \in {"str", "num"} THEN r.s ELSE r.t) \in p.ss
+                      ELSE r.t = "str" /\ r.s \in p.ss
     [] p.t = "num" -> r.t = "num" /\ r.s = p.s
     [] OTHER -> r.t = p.t
 
@@ -385,11 +423,14 @@ LitOf(jv) == IF jv.t \in {"str", "num"} THEN jv.s ELSE jv.t
 Native(rfc, b, jt) ==
   CASE b \in IntTypes -> IF rfc /\ b \in Wide THEN jt = "str" ELSE jt = "num"
     [] b = "boolean" -> jt \in {"true", "false"}
+    [] b = "union" -> TRUE                                   \* 6.10: the JSON type of any member
     [] OTHER -> jt = "str"
 \* RFC 7951 6.8: both forms name an identity of the leaf's own module; the tree carries the bare one
+\* (only an identityref, or an identityref member of a union, reads a "module:" prefix; for every other type the
+\* text is the value as it stands)
 NormId(csn, s) ==
-  IF csn.ty.b = "identityref" /\ \E id \in DerivedFrom(csn.ty.base) : id.mod = csn.mod /\ IdQual(id) = s
-  THEN (CHOOSE id \in DerivedFrom(csn.ty.base) : id.mod = csn.mod /\ IdQual(id) = s).name ELSE s
+  IF \E id \in IdsOf(csn.ty) : id.mod = csn.mod /\ IdQual(id) = s
+  THEN (CHOOSE id \in IdsOf(csn.ty) : id.mod = csn.mod /\ IdQual(id) = s).name ELSE s
 \* one scalar for a leaf / leaf-list entry:  [cls, v]
 DecJScalar(rfc, csn, jv) ==
   LET b == csn.ty.b IN
@@ -446,6 +487,7 @@ DecJNode(rfc, csn, jv) ==
          ELSE LET r == DecJObj(rfc, csn, csn.mod, jv.m) IN
               \* an empty non-presence container carries no data: kept or pruned, not judged
               IF ~csn.pres /\ r.kids = << >> /\ r.cls \in {"tree", "either"} THEN OpenOut
+              ELSE IF ~CasesOK(csn, r.kids) THEN OpenOut
               ELSE Out(r.cls, N(csn.n, << >>, r.kids))
     [] csn.k = "list" ->
          IF jv.t # "arr" \/ Len(jv.a) = 0 \/ \E i \in 1..Len(jv.a) : jv.a[i].t # "obj" THEN OpenOut
@@ -455,6 +497,7 @@ DecJNode(rfc, csn, jv) ==
                            IN IF r.cls = "error" THEN ErrOut
                               ELSE IF r.cls = "open" THEN OpenOut
                               ELSE IF ks = {} THEN ErrOut                    \* RFC 7951 5.4 / RFC 6020 7.8.2: key required
+                              ELSE IF ~CasesOK(csn, r.kids) THEN OpenOut
                               ELSE Out(r.cls, N(r.kids[MinOf(ks)].vals[1], << >>, r.kids))])
                   cls == CombAll(es, 1)
               IN IF cls \in {"tree", "either"} /\ ~Distinct([i \in 1..Len(es) |-> es[i].t.n]) THEN OpenOut
@@ -476,6 +519,40 @@ DecJ(rfc, root, doc) ==
   IF doc.t # "obj" THEN OpenOut
   ELSE LET r == DecJObj(rfc, root, "", doc.m) IN Out(r.cls, N("root", << >>, r.kids))
 
+\* ---- where a document has a value of the wrong shape (only used to describe a failure): "" or
+\* "<kind of schema node>:<kind of JSON value>" for the first value that is not of the JSON type RFC 7951 section 5
+\* prescribes for its node (object for a container and a list entry, array for a list and a leaf-list, scalar
+\* for a leaf and a leaf-list entry, [null] / null for an empty leaf); "choice-member-" is put in front of a node
+\* that is written in a case of a choice
+JKind(jv) == IF jv.t \in {"true", "false"} THEN "bool" ELSE jv.t
+SnKind(csn) == (IF csn.cs # "" THEN "choice-member-" ELSE "")
+               \o (CASE csn.k = "leaf" -> IF csn.ty.b = "empty" THEN "empty-leaf" ELSE "leaf"
+                     [] csn.k = "ll" -> "leaf-list" [] csn.k = "cont" -> "container" [] csn.k = "list" -> "list" [] OTHER -> "root")
+RECURSIVE JShapeNode(_, _, _), JShapeMembers(_, _, _, _, _)
+JShapeMembers(rfc, psn, pmod, m, i) ==
+  IF i > Len(m) THEN ""
+  ELSE LET rn == ResolveJ(rfc, psn, pmod, m[i].k)
+           r == IF rn.n = "" THEN "" ELSE JShapeNode(rfc, Child(psn, rn.n), m[i].v)
+       IN IF r # "" THEN r ELSE JShapeMembers(rfc, psn, pmod, m, i + 1)
+JShapeNode(rfc, csn, jv) ==
+  CASE csn.k = "leaf" ->
+         IF csn.ty.b = "empty"
+         THEN (IF jv.t = "null" \/ (jv.t = "arr" /\ Len(jv.a) = 1 /\ jv.a[1].t = "null") THEN "" ELSE SnKind(csn) \o ":" \o JKind(jv))
+         ELSE IF jv.t \in {"str", "num", "true", "false"} THEN "" ELSE SnKind(csn) \o ":" \o JKind(jv)
+    [] csn.k = "ll" ->
+         IF jv.t # "arr" THEN SnKind(csn) \o ":" \o JKind(jv)
+         ELSE LET bad == {i \in 1..Len(jv.a) : jv.a[i].t \notin {"str", "num", "true", "false"}} IN
+              IF bad = {} THEN "" ELSE SnKind(csn) \o "-entry:" \o JKind(jv.a[MinOf(bad)])
+    [] csn.k = "cont" -> IF jv.t # "obj" THEN SnKind(csn) \o ":" \o JKind(jv) ELSE JShapeMembers(rfc, csn, csn.mod, jv.m, 1)
+    [] csn.k = "list" ->
+         IF jv.t # "arr" THEN SnKind(csn) \o ":" \o JKind(jv)
+         ELSE LET bad == {i \in 1..Len(jv.a) : jv.a[i].t # "obj" \/ JShapeMembers(rfc, csn, csn.mod, jv.a[i].m, 1) # ""} IN
+              IF bad = {} THEN ""
+              ELSE LET x == jv.a[MinOf(bad)] IN
+                   IF x.t # "obj" THEN SnKind(csn) \o "-entry:" \o JKind(x) ELSE JShapeMembers(rfc, csn, csn.mod, x.m, 1)
+    [] OTHER -> ""
+JShape(rfc, root, doc) == IF doc.t # "obj" THEN "root:" \o JKind(doc) ELSE JShapeMembers(rfc, root, "", doc.m, 1)
+
 \* literals of a JSON input: every scalar token that is not a member name
 JLits(ts) == { [s |-> (IF ts[i].c \in {"str", "num"} THEN ts[i].s ELSE ts[i].c), ns |-> "", rest |-> "", c |-> ts[i].c]
                : i \in {j \in 1..Len(ts) : ts[j].c \in {"str", "num", "true", "false"}
@@ -495,8 +572,8 @@ XRaw(s) == [c |-> "raw", n |-> "", ns |-> "", decl |-> << >>, s |-> s]
 
 \* ---- RFC 6020 7.5.7, 7.6.6, 7.7.7, 7.8.5 (XML mapping rules), 9.10.3 (identityref is a QName)
 EncXLeaf(csn, v) ==
-  LET ids == {id \in DerivedFrom(csn.ty.base) : IdVal(csn.mod, id) = v} IN
-  IF csn.ty.b = "identityref" /\ ids # {}
+  LET ids == {id \in IdsOf(csn.ty) : IdVal(csn.mod, id) = v} IN
+  IF ids # {}
   THEN LET id == CHOOSE x \in ids : TRUE IN XEl(csn.n, NsOf(csn.mod), v, [ns |-> NsOf(id.mod), rest |-> id.name, own |-> TRUE], << >>, csn.user)
   ELSE XEl(csn.n, NsOf(csn.mod), v, NoQ, << >>, csn.user)
 RECURSIVE EncXKids(_, _, _), EncXNode(_, _)
@@ -570,21 +647,24 @@ FirstNames(es, i, acc) == IF i > Len(es) THEN acc
 DecXScalar(csn, e) ==      \* [cls, v]
   IF e.kids # << >> THEN [cls |-> "open", v |-> ""]
   ELSE IF csn.ty.b = "empty" THEN [cls |-> IF e.text = "" THEN "tree" ELSE "error", v |-> ""]
-  ELSE IF csn.ty.b = "identityref" THEN
-       LET byq == {id \in DerivedFrom(csn.ty.base) : e.q.ns = NsOf(id.mod) /\ e.q.rest = id.name}
-           bare == {id \in DerivedFrom(csn.ty.base) : id.mod = csn.mod /\ id.name = e.text}
+  ELSE LET ids == IdsOf(csn.ty)
+           byq == {id \in ids : e.q.ns = NsOf(id.mod) /\ e.q.rest = id.name}
+           bare == {id \in ids : id.mod = csn.mod /\ id.name = e.text}
+           \* the text read by the other member types (all of the type when it has no identityref member):
+           \* no prefix is ever dropped
+           acc == Accepts(NoIds(csn.ty), csn.mod, e.text)
+           plain == [cls |-> IF acc = "no" THEN "error" ELSE IF acc = "yes" /\ IsCanonLex(csn.ty, e.text) THEN "tree" ELSE "open", v |-> e.text]
        \* a prefix declared on the element itself is what RFC 6020 9.10.3 examples and this library's encoder
        \* write; one inherited from an ancestor is as valid XML, but no encoding of a tree here contains it,
        \* so a decoder that rejects it does not break the round trip
-       IN IF byq # {} THEN [cls |-> IF e.q.own THEN "tree" ELSE "either", v |-> IdVal(csn.mod, CHOOSE id \in byq : TRUE)]
+       IN IF ids = {} THEN plain
+          ELSE IF byq # {} THEN [cls |-> IF e.q.own THEN "tree" ELSE "either", v |-> IdVal(csn.mod, CHOOSE id \in byq : TRUE)]
           ELSE IF bare # {} /\ e.ns = NsOf(csn.mod) THEN [cls |-> "tree", v |-> e.text]
           \* a prefix that is undeclared or bound to another namespace, a bare name outside the leaf's namespace:
           \* whether the text may still be read as the "module:name" form of RFC 7951 is not judged
-          ELSE IF PrefixOf(e.text) # "" /\ \E id \in DerivedFrom(csn.ty.base) : e.text \in {IdVal(csn.mod, id), IdQual(id)} THEN [cls |-> "open", v |-> ""]
+          ELSE IF PrefixOf(e.text) # "" /\ \E id \in ids : e.text \in {IdVal(csn.mod, id), IdQual(id)} THEN [cls |-> "open", v |-> ""]
           ELSE IF bare # {} THEN [cls |-> "open", v |-> ""]
-          ELSE [cls |-> "error", v |-> ""]
-  ELSE LET acc == Accepts(csn.ty, csn.mod, e.text) IN
-       [cls |-> IF acc = "no" THEN "error" ELSE IF acc = "yes" /\ IsCanonLex(csn.ty, e.text) THEN "tree" ELSE "open", v |-> e.text]
+          ELSE plain
 RECURSIVE DecXKids(_, _), DecXGroup(_, _)
 DecXGroup(csn, g) ==       \* all same-named sibling elements of one data node -> Out
   IF \E i \in 1..Len(g) : g[i].ns # NsOf(csn.mod) THEN OpenOut
@@ -600,6 +680,7 @@ DecXGroup(csn, g) ==       \* all same-named sibling elements of one data node -
               IF Len(g) # 1 \/ g[1].text # "" THEN OpenOut
               ELSE LET r == DecXKids(csn, g[1].kids) IN
                    IF ~csn.pres /\ r.kids = << >> /\ r.cls \in {"tree", "either"} THEN OpenOut
+                   ELSE IF ~CasesOK(csn, r.kids) THEN OpenOut
                    ELSE Out(r.cls, N(csn.n, << >>, r.kids))
          [] csn.k = "list" ->
               IF \E i \in 1..Len(g) : g[i].text # "" THEN OpenOut
@@ -609,6 +690,7 @@ DecXGroup(csn, g) ==       \* all same-named sibling elements of one data node -
                                 IN IF r.cls = "error" THEN ErrOut
                                    ELSE IF r.cls = "open" THEN OpenOut
                                    ELSE IF ks = {} THEN ErrOut
+                                   ELSE IF ~CasesOK(csn, r.kids) THEN OpenOut
                                    ELSE Out(r.cls, N(r.kids[MinOf(ks)].vals[1], << >>, r.kids))])
                        cls == CombAll(es, 1)
                    IN IF cls \in {"tree", "either"} /\ ~Distinct([i \in 1..Len(es) |-> es[i].t.n]) THEN OpenOut
@@ -627,6 +709,23 @@ DecXKids(psn, els) ==
 DecX(root, e) ==
   IF e.text # "" THEN OpenOut
   ELSE LET r == DecXKids(root, e.kids) IN Out(r.cls, N("root", << >>, r.kids))
+
+\* ---- where an XML document has content of the wrong shape (only used to describe a failure): character data
+\* in an element that holds elements (container, list entry, the root), elements in one that holds text (leaf,
+\* leaf-list entry), both (mixed)
+XContentKind(e) == IF e.kids # << >> /\ e.text # "" THEN "mixed" ELSE IF e.kids # << >> THEN "elements" ELSE IF e.text # "" THEN "text" ELSE "nothing"
+RECURSIVE XShapeKids(_, _, _)
+XShapeKids(psn, els, i) ==
+  IF i > Len(els) THEN ""
+  ELSE LET e == els[i]
+           r == IF ~HasChild(psn, e.n) THEN ""
+                ELSE LET csn == Child(psn, e.n) IN
+                     IF csn.k \in {"leaf", "ll"}
+                     THEN (IF e.kids # << >> THEN SnKind(csn) \o (IF csn.k = "ll" THEN "-entry:" ELSE ":") \o XContentKind(e) ELSE "")
+                     ELSE IF e.text # "" THEN SnKind(csn) \o (IF csn.k = "list" THEN "-entry:" ELSE ":") \o XContentKind(e)
+                     ELSE XShapeKids(csn, e.kids, 1)
+       IN IF r # "" THEN r ELSE XShapeKids(psn, els, i + 1)
+XShape(root, e) == IF e.text # "" THEN "root:" \o XContentKind(e) ELSE XShapeKids(root, e.kids, 1)
 
 \* literals of an XML input: the character data of every element, with its QName reading
 RECURSIVE XLitsOf(_)
@@ -651,10 +750,9 @@ CanonNum(s) == LET body == Unsigned(s)
 LitOK(csn, v, lits) ==
   \/ csn.ty.b = "empty"
   \/ \E l \in lits : l.s = v
-  \/ /\ csn.ty.b \in NumericTypes /\ IsNumLex(v)
+  \/ /\ IsNumericTy(csn.ty) /\ IsNumLex(v)
      /\ \E l \in lits : IsNumLex(l.s) /\ CanonNum(l.s) = CanonNum(v)
-  \/ /\ csn.ty.b = "identityref"
-     /\ \E id \in DerivedFrom(csn.ty.base) :
+  \/ \E id \in IdsOf(csn.ty) :
           /\ IdVal(csn.mod, id) = v
           /\ \E l \in lits : l.s = IdQual(id) \/ (l.ns = NsOf(id.mod) /\ l.rest = id.name)
 RECURSIVE AlteredIn(_, _, _), AlteredKids(_, _, _, _)
